@@ -82,7 +82,7 @@ CHECKS = {
     design="5.5 C08"),
  "C17": dict(
     technique="TLA+ model of cut-and-continue (Cut.tla) model-checked by TLC for all operator chains x cut points x cut kinds; TLC-generated programs cut for real at every intermediate collection with persist / delayed (with meta+divisions, bare, with prefix) / legacy round trips; CutTrace validated by TLC",
-    text="TLC checks for every chain of partition-wise / other / partition-selecting operators, cut point and cut kind that continuing on the import node yields the same partition contents, keeps divisions unless the cut kind documents their loss, and that an import node absorbing different selections has different names only if its name covers the selection. Every proper sub-collection of TLC-generated programs is cut with six kinds of round trip and the rest of the program runs on the re-imported collection; TLC validates the final result (order / labels where defined), declared schema, divisions and the graph invariants of the cut plan against the uncut query, and partition selections on the imported node against the head's own partitions.",
+    text="TLC checks for every chain of partition-wise / other / partition-selecting operators, cut point and cut kind that continuing on the import node yields the same partition contents, keeps divisions unless the cut kind documents their loss, and that an import node absorbing different selections has different names only if its name covers the selection. Every proper sub-collection of TLC-generated programs is cut with six kinds of round trip and the rest of the program runs on the re-imported collection; TLC validates the final result (order / labels where defined), declared schema, divisions (those the uncut query declares or those its optimized plan runs with) and the graph invariants of the cut plan against the uncut query, and partition selections on the imported node against the head's own partitions.",
     note="Trusted: TLC; persist on the synchronous scheduler; installed dask's legacy dataframe. Scalars are not cut (no to_delayed).",
     design="5.6 C17"),
  "C16": dict(
